@@ -230,6 +230,7 @@ fn xcfg(plan: Plan, universe: u8) -> MapCfg {
     // *reference result* depends on it
     c.alphabet.retain = vec![Ret::All, Ret::None, Ret::EvenIds];
     c.alphabet.from_iter = false;
+    c.alphabet.order_dependent = false;
     c
 }
 
